@@ -6,6 +6,7 @@ import (
 	"io"
 	"os"
 	"path/filepath"
+	"reflect"
 
 	"github.com/XiXi-2024/xixi-kv/datafile"
 	"github.com/XiXi-2024/xixi-kv/vsim/vos"
@@ -343,7 +344,7 @@ func (r *Runner) dfVerify(sides []*dfSide, afterReopen bool) {
 			}
 			for i, w := range sd.written {
 				pos := w.pos
-				v, err := sd.df.ReadRecordValue(&pos)
+				v, err := readRecordValue(sd.df, &pos, w.rec.key)
 				if err != nil || !beq(v, w.rec.val) {
 					bad = fmt.Sprintf("record %d: ReadRecordValue at %+v = %s, %v; want %s", i, pos, show(v), err, show(w.rec.val))
 					return
@@ -545,4 +546,20 @@ func genDF(c *Case, rng *vrt.Rand, tier string) func(r *Runner, i int) *Op {
 			return &Op{K: "newfile"}
 		}
 	}
+}
+
+// readRecordValue calls DataFile.ReadRecordValue whichever of its two signatures the tree under test has: (pos) -
+// the pinned one - or (pos, key), which verifies that the record found carries the key it was asked for (engine fix
+// for damage that replaces a record by another valid one). Going through reflection keeps the harness buildable
+// against a tree in which that fix is reverted.
+func readRecordValue(df *datafile.DataFile, pos *datafile.DataPos, key []byte) ([]byte, error) {
+	m := reflect.ValueOf(df).MethodByName("ReadRecordValue")
+	args := []reflect.Value{reflect.ValueOf(pos)}
+	if m.Type().NumIn() == 2 {
+		args = append(args, reflect.ValueOf(key))
+	}
+	out := m.Call(args)
+	v, _ := out[0].Interface().([]byte)
+	err, _ := out[1].Interface().(error)
+	return v, err
 }
